@@ -111,6 +111,8 @@ ref::File buildFile(const std::vector<Op> &ops, FileInfo *info) {
             Rng r2(static_cast<uint64_t>(o->arg(6)));
             for (int i = 0; i < 18; ++i) { f.h.evDisp[i] = static_cast<uint8_t>(r2.below(256)); }
             I.tags.insert("event-display-raw");
+            // stale event times in slots at or beyond the declared number of events (other software leaves them there): still 18 floats of the header
+            if (o->arg(6) % 2 != 0) { for (unsigned i = nev; i < 18; ++i) f.h.evTime[i] = genFloatBits(r2); if (nev < 18) I.tags.insert("event-times-beyond-count"); }
         }
     }
     // ---- group ids ----
